@@ -42,6 +42,9 @@
 \*      called for every change: first with the operation's id (nothing else changed yet), last with
 \*      ready / no details / the final UpdateState, in between only with the operation's id; while
 \*      downloading the details list the resources being fetched and FinishedUpTo steps through 1..n.
+\*      Operations exclude each other: a DownloadUpdates and a fetching GetFile called at the same time
+\*      behave like one after the other (in either order), their requests do not interleave and download
+\*      details are never seen under another state id.
 \*      UpdateState: a check sets LastCheckAt, LastCheckError (nil exactly on success), on success
 \*      LastSuccessAt = LastCheckAt and PendingDownload lists at least the pending downloads that need a
 \*      manual trigger and at most all pending downloads; a download run with n > 0 sets LastDownloadAt,
@@ -113,7 +116,9 @@ Req(u, k, a, v) == [u |-> u, k |-> k, a |-> a, v |-> v]
 NoU == [mode |-> "none", att |-> <<>>, suc |-> {}, plo |-> {}, phi |-> {}]
 \* one allowed outcome: errs = allowed error classes of the call, v = version of the returned file,
 \* reqs = the exact request sequence, opid = registry state during the call ("" = no operation)
-Out(errs, v, s, reqs, opid, u) == [errs |-> errs, v |-> v, st |-> s, reqs |-> reqs, opid |-> opid, u |-> u]
+\* (errs2, v2: the second call of a concurrent pair, see "Par")
+Out(errs, v, s, reqs, opid, u) ==
+    [errs |-> errs, v |-> v, errs2 |-> {""}, v2 |-> NoV, st |-> s, reqs |-> reqs, opid |-> opid, u |-> u]
 
 \* ------------------------------------------------------------------ F1 fetching
 Url(t, n) == (t % n) + 1
@@ -234,7 +239,7 @@ Restarted(s) ==     \* a fresh registry over the same storage dir after ScanStor
               !.last = <<0, 0>>, !.lmax = <<0, 0>>, !.upd = NoUpd,
               !.handles = <<>>, !.gen = <<0, 0, 0>>, !.upg = {}]
 
-Step(s, o) ==
+Step1(s, o) ==
   CASE o.op = "SetIndex" ->     \* server o.u answers requests for index o.i with document o.doc / fails (o.mode)
           {Out({""}, NoV, [s EXCEPT !.srv[o.u].iok[o.i] = (o.mode \in OkModes), !.srv[o.u].idoc[o.i] = o.doc], <<>>, "", NoU)}
     [] o.op = "SetFile" ->      \* server o.u delivers / does not deliver the file of version o.v of resource o.r
@@ -287,6 +292,24 @@ Step(s, o) ==
     [] o.op = "Restart" ->      \* new registry: ScanStorage, LoadIndexes, SelectVersions
           {Out({IF x.oks[1] /\ x.oks[2] THEN "" ELSE "failed"}, NoV, SelectAll(x.st), x.reqs, "", NoU) : x \in Both(Restarted(s), LoadIndex)}
 
+\* DownloadUpdates(includeManual = o.flag) and GetFile(Ident[o.r]) called at the same time: registry operations
+\* exclude each other (F6), so the pair behaves like one of the two orders and the requests of the two calls
+\* do not interleave.  GetFile looks at the Available flag before it waits for the running operation, so after
+\* a DownloadUpdates that fetched its version it may or may not fetch that version once more.
+ParOutcome(d, g, first, second) ==
+    [errs |-> d.errs, v |-> NoV, errs2 |-> g.errs, v2 |-> g.v, st |-> second.st, reqs |-> first.reqs \o second.reqs,
+     opid |-> "par", u |-> d.u]
+Step(s, o) ==
+    IF o.op # "Par" THEN Step1(s, o)
+    ELSE LET D == [NoArg("Download") EXCEPT !.flag = o.flag]
+             G == [NoArg("GetFile") EXCEPT !.r = o.r]
+             again(x, y) ==      \* y: GetFile after the download run x
+                 IF s.cfg.online /\ y.v # NoV /\ y.v \notin s.res[o.r].av /\ y.v \in x.st.res[o.r].av
+                 THEN {[y EXCEPT !.reqs = Fetch(x.st, FileServers(x.st, o.r, y.v), 5, "file", o.r, y.v).reqs]}
+                 ELSE {}
+         IN UNION {UNION {{ParOutcome(x, z, x, z) : z \in {y} \cup again(x, y)} : y \in Step1(x.st, G)} : x \in Step1(s, D)}
+            \cup UNION {{ParOutcome(x, y, y, x) : x \in Step1(y.st, D)} : y \in Step1(s, G)}
+
 \* ------------------------------------------------------------------ F6: what the registry state must look like
 \* update state t after a call whose outcome demands u, coming from update state p at clock c
 RECURSIVE UpdViolations(_, _, _, _)
@@ -321,6 +344,8 @@ UpdViolations(p, c, u, t) ==
 NoteViolations(opid, att, p, t, ns, strict) ==
     LET N == Len(ns) IN
     IF opid = "" THEN (IF N = 0 THEN {} ELSE {"state-change-outside-operation"})
+    ELSE IF opid = "par" THEN    \* concurrent calls: the callback may run late; details belong to the download run only
+         (IF \A j \in 1..N : ns[j].dn # -1 => ns[j].id = "downloading" THEN {} ELSE {"details-outside-download"})
     ELSE IF N < 2 THEN {"state-change-not-notified"}
     ELSE (IF ns[1].id = opid /\ ns[1].dn = -1 /\ ns[1].upd = p THEN {} ELSE {"first-notification"})
          \cup (IF ns[N].id = "ready" /\ ns[N].dn = -1 /\ ns[N].upd = t THEN {} ELSE {"last-notification"})
